@@ -15,7 +15,43 @@ ROOT = os.path.dirname(os.path.abspath(__file__))
 VERIF = os.path.dirname(ROOT)
 REPO = os.environ.get("VERIF_REPO", "/repo")
 
+def verdict(m, tier, overlay, td):
+    evd = os.path.join(td, "ev")
+    env = dict(os.environ, GOFLAGS="-mod=mod", GOPROXY="off", GOSUMDB="off", GOTOOLCHAIN="local", GOWORK="off")
+    p = subprocess.run([os.path.join(VERIF, "bin/xpcheck"), "-property", m["property"], "-tier", tier, "-repo", REPO,
+                        "-evidence-dir", evd, "-known", os.path.join(VERIF, "known_findings.json"),
+                        "-overlay", overlay], capture_output=True, text=True, env=env)
+    out = p.stdout + p.stderr
+    viol = [l for l in out.splitlines() if l.startswith("VIOLATION")]
+    if any("cannot be loaded" in l for l in viol):
+        return m, "nocompile", viol[0][:300], out
+    if m.get("neutral"):
+        return (m, "ok", "silent", out) if not viol and p.returncode == 0 else (m, "FALSE-ALARM", viol[0][:300] if viol else out[-300:], out)
+    hit = [l for l in viol if ("rule=" + m["expect_rule"] + " ") in l or m["expect_rule"] == "*"]
+    if hit:
+        return m, "killed", hit[0][:260], out
+    if viol:
+        return m, "killed-other", viol[0][:260], out
+    return m, "SURVIVED", out.strip().splitlines()[-1][:200] if out.strip() else "", out
+
+def run_patch(m, tier):
+    pf = m["patch"] if os.path.isabs(m["patch"]) else os.path.join(VERIF, m["patch"])
+    files = [l[6:].strip() for l in open(pf) if l.startswith("+++ b/")]
+    with tempfile.TemporaryDirectory() as td:
+        ov = []
+        for f in files:
+            dst = os.path.join(td, "src", f)
+            os.makedirs(os.path.dirname(dst), exist_ok=True)
+            open(dst, "w").write(open(os.path.join(REPO, f)).read())
+            ov.append(f + "=" + dst)
+        pr = subprocess.run(["patch", "-p1", "-s", "--no-backup-if-mismatch", "-d", os.path.join(td, "src"), "-i", pf], capture_output=True, text=True)
+        if pr.returncode != 0:
+            return m, "skipped", "patch does not apply: " + (pr.stdout + pr.stderr)[:120], ""
+        return verdict(m, tier, ",".join(ov), td)
+
 def run(m, tier):
+    if "patch" in m:
+        return run_patch(m, tier)
     path = os.path.join(REPO, m["file"])
     src = open(path).read()
     if "git_ref" in m:
